@@ -253,6 +253,9 @@ def allele_table(table, seq, pseudo):
         d["GEN*13.001"] = {"mutations": [["GENP", "i2-"], snv(s, 530, None, "rs530", "functional")]}
         d["GEN*14.001"] = {"mutations": [["GENP", "e3+"]]}
     d["GEN*15.001"] = {"mutations": [["GEN", "deletion:e3,down"], snv(s, 180, None, "rs180", "functional")]}
+    # variants on the very first and the very last base of the RefSeq (boundary of the mapped part)
+    d["GEN*1.003"] = {"mutations": [snv(s, 1, None, "rs1")]}
+    d["GEN*18.001"] = {"mutations": [snv(s, 600, None, "rs600", "functional")]}
     if table == "richd":      # plus a deletion-insertion (as CYP2A6*27 has)
         d["GEN*16.001"] = {"mutations": [[390, f"del{s[389:391]}ins{COMP[s[389]]}", "rs390", "frameshift"]]}
         # the first base change of the MNV of *5 also exists as a substitution of its own (as CYP2D6 rs1058164 does)
